@@ -7,6 +7,7 @@ CONSTANTS
   MaxRuns = 1
   Tolerated <- NoTol
   FnOut = FALSE
+  Poller = FALSE
   Gen = "off"
 INVARIANTS NoClauseViolated InvQuiescentAtRelease InvDurLagsMem
 CHECK_DEADLOCK TRUE
